@@ -82,6 +82,7 @@ def units(tier, seed):
     # groups of very different magnitude (a group sum must not depend on what was summed before it)
     for g in (2, 3, 4):
         us.append({"kind": "aggmag", "ngroups": g})
+    us.append({"kind": "agginf"})
     # size classes beyond the exhaustive bound: structured series with the same per-run reference
     # size ladder around powers of two (typical thresholds of blocked / vectorised code paths)
     ladder = [7, 8, 9, 15, 16, 17, 31, 32, 33, 63, 64, 65, 100, 127, 128, 129, 255, 256, 257, 511, 512, 513,
@@ -399,11 +400,15 @@ def m2d_patterns(nm, tier):
                         yield c
 
 
-def check_m2d_case(ctx, dutils, year, month, vals, interp):
+def check_m2d_case(ctx, dutils, year, month, vals, interp, unit=None):
     nm = len(vals)
     idx = pd.date_range("%04d-%02d-01" % (year, month), periods=nm, freq="MS")
+    if unit is not None:
+        idx = idx.as_unit(unit)         # storage resolution of the time stamps (date_range default otherwise)
     se = pd.Series(vals, index=idx)
     case = {"kind": "m2d", "year": year, "month": month, "vals": vals, "interp": interp}
+    if unit is not None:
+        case["unit"] = unit
     try:
         sed = dutils.monthly2daily(se, interp)
     except Exception as e:
@@ -435,7 +440,7 @@ def run_m2d_unit(unit, ctx):
     few = [2, 3, 13, 14, 26, 120]
     first = True
     for nm in lengths:
-        for vals in m2d_patterns(nm, tier):
+        for ipat, vals in enumerate(m2d_patterns(nm, tier)):
             for interp in ("flat", "cubic"):
                 for year in unit["years"]:
                     if tier != "quick" and year not in (2023, 2024) and nm not in few:
@@ -444,6 +449,9 @@ def run_m2d_unit(unit, ctx):
                         ctx.case(False, n=0, sample={"kind": "m2d", "year": year, "month": unit["month"], "vals": vals, "interp": interp})
                         first = False
                     check_m2d_case(ctx, dutils, year, unit["month"], vals, interp)
+                    if ipat < 2 and year == unit["years"][0]:
+                        for tu in ("s", "ms", "us", "ns"):
+                            check_m2d_case(ctx, dutils, year, unit["month"], vals, interp, unit=tu)
 
 
 def run_guards(unit, ctx):
@@ -558,8 +566,78 @@ def run_aggmag(unit, ctx):
             check_agg_case(ctx, dutils, list(runs), (199501, 1), vals, groups, cb)
 
 
+INFV = [float("-inf"), float("inf"), 1.5, -2.5, float("nan")]
+
+
+def check_agg_inf(ctx, dutils, runs, vals):
+    """groups holding infinite values: sum / mean / max / last of the non-missing values in float arithmetic
+    (a group holding both +inf and -inf has no sum: only max and last are judged there)"""
+    n = len(vals)
+    idx = index_of(runs, (199501, 1))
+    x = np.array(vals, dtype=np.float64)
+    groups, i = [], 0
+    for r in runs:
+        g = vals[i:i + r]
+        groups.append(([v for v in g if v == v], sum(1 for v in g if v != v)))
+        i += r
+    for maxnan in (0, 1, n + 1):
+        for oper in (0, 1, 2, 3):
+            case = {"kind": "agginf", "runs": list(runs), "vals": [None if v != v else ("inf" if v == INFV[1] else "-inf" if v == INFV[0] else v) for v in vals],
+                    "oper": oper, "maxnan": maxnan}
+            try:
+                out = dutils.aggregate(idx, x, oper, maxnan)
+            except Exception as e:
+                ctx.case(True)
+                ctx.violation("aggregate:raised:%s:infinite-values" % type(e).__name__, case, "aggregate raised %r" % (e,))
+                continue
+            ctx.case(True, outcome=out.tobytes())
+            if len(out) != len(runs):
+                ctx.violation("aggregate:length:infinite-values", case, "expected %d groups, got %d" % (len(runs), len(out)))
+                continue
+            for gi, (nm, nmiss) in enumerate(groups):
+                o = float(out[gi])
+                if nmiss > maxnan:
+                    exp = float("nan")
+                elif not nm:
+                    if oper != 0:
+                        continue
+                    exp = 0.0
+                elif oper <= 1:
+                    tot = sum(nm)
+                    if tot != tot:
+                        ctx.count("unjudged.agginf.sum_of_opposite_infinities")
+                        continue
+                    exp = tot if oper == 0 else tot / len(nm)
+                elif oper == 2:
+                    exp = max(nm)
+                else:
+                    exp = nm[-1]
+                ok = (o != o) if exp != exp else (o == exp or (math.isfinite(exp) and feq(o, exp)))
+                if not ok:
+                    ctx.violation("aggregate:oper=%d:value:infinite-values" % oper, case,
+                                  "group %d: %s of the non-missing values %r is %r, got %r" % (
+                                      gi, ["sum", "mean", "max", "last"][oper], nm, exp, o), observed=out.tolist(), expected=exp)
+
+
+def run_agginf(unit, ctx):
+    from hydrodiy.data import dutils
+    first = True
+    for runs in ([1, 1], [2, 1], [1, 2], [2, 2], [1, 1, 1], [3]):
+        for vals in itertools.product(INFV, repeat=sum(runs)):
+            if not any(v in (INFV[0], INFV[1]) for v in vals):
+                continue
+            if first:
+                ctx.case(False, n=0, sample={"kind": "agginf", "runs": runs})
+                first = False
+            ctx.count("agginf.cases")
+            check_agg_inf(ctx, dutils, runs, list(vals))
+
+
 def run_unit(unit, ctx):
     k = unit["kind"]
+    if k == "agginf":
+        run_agginf(unit, ctx)
+        return
     if k == "aggmag":
         run_aggmag(unit, ctx)
         return
@@ -595,10 +673,13 @@ def replay(case):
         if not any(math.isnan(v) for v in vals):
             check_inversions(ctx, dutils, runs, vals, cb)
             check_goue(ctx, dutils, signatures, runs, vals, groups, cb)
+    elif k == "agginf":
+        vals = [float("nan") if v is None else float(v) for v in case["vals"]]
+        check_agg_inf(ctx, dutils, case["runs"], vals)
     elif k == "aggbig":
         run_aggbig(case, ctx)
     elif k == "m2d":
-        check_m2d_case(ctx, dutils, case["year"], case["month"], case["vals"], case["interp"])
+        check_m2d_case(ctx, dutils, case["year"], case["month"], case["vals"], case["interp"], unit=case.get("unit"))
     elif k == "guard":
         run_guards({}, ctx)
     out = []
